@@ -6,7 +6,9 @@ from nvlib.check import Prop
 from props import c06_extract as T
 
 NSLOT, NOBJ, NVAR, NCALL, NSENT = 10, 4, 4, 4, 4
-NEFUN = 45
+NEFUN = 71
+# groups that build a cycle while they run: an error injected in the middle legitimately leaves cyclic garbage
+NO_FAULT = (13, 48)
 
 
 def save_text(v):
@@ -87,6 +89,8 @@ class Gen:
         self.nstr = 0
         self.anon = 0
         self.inp = False
+        self.unl = [False, False]
+        self.late = False       # second half of the history: the blueprints may be unloaded
 
     def new(self, kind, size=0):
         self.age += 1
@@ -117,9 +121,9 @@ class Gen:
         choices += [("newmstr", 4), ("sappend", 4), ("sjoin", 3), ("sadd", 3), ("schar", 4)]
         if m == "unit":
             choices += [("newstr", 6), ("push", 6), ("pushr", 3), ("pop", 6), ("popto", 3), ("oref", 3),
-                        ("clones", 1), ("unclone", 1)]
+                        ("clones", 2), ("unclone", 2), ("unload", 1 if self.late else 0)]
         else:
-            choices += [("err", 4), ("efun", 12), ("srange", 4), ("rest", 8), ("resto", 2)]
+            choices += [("err", 4), ("efun", 12), ("srange", 4), ("rest", 8), ("resto", 2), ("fefun", 6), ("frest", 3)]
         k = r.weighted(choices)
         S = self.slots
         if k == "newarr":
@@ -200,7 +204,7 @@ class Gen:
             self.emit("popto %d" % d)
         elif k == "newobj":
             o = r.below(NOBJ)
-            if not self.handle[o] and (self.obj[o] is None or self.obj[o].size == 2):
+            if not self.handle[o] and (self.obj[o] is None or self.obj[o].size == 2) and not self.unl[0]:
                 self.obj[o] = self.new("obj")
                 self.handle[o] = True
             self.emit("newobj %d" % o)
@@ -390,7 +394,8 @@ class Gen:
                 self.emit(x)
         elif k == "clones":
             n = r.range(1, 40)
-            self.anon += n
+            if not self.unl[0]:
+                self.anon += n
             self.emit("clones %d" % n)
         elif k == "unclone":
             n = r.range(1, max(1, self.anon))
@@ -404,6 +409,22 @@ class Gen:
                 text = damage(text, r)
             if " " not in text and 0 < len(text) < 200 and not text.startswith("#"):
                 self.emit("%s %s" % (k, text))
+        elif k == "unload":
+            w = r.below(2)
+            if not any(o is not None and o.size == 1 for o in self.obj):
+                self.unl[w] = True
+            self.emit("unload %d" % w)
+        elif k == "fefun":
+            f = r.below(NEFUN)
+            if f not in NO_FAULT:
+                # an error injected at one instruction (1..250), or (1 in 4) at every instruction in turn
+                self.emit("fefun %d %d %d %d" % (f, self.pick_slot(), self.pick_slot(), 0 if r.chance(1, 4) else r.range(1, 250)))
+        elif k == "frest":
+            text = save_text(random_value(r))
+            if r.chance(1, 2):
+                text = damage(text, r)
+            if " " not in text and 0 < len(text) < 200 and not text.startswith("#"):
+                self.emit("frest %s %d" % (text, 0 if r.chance(1, 3) else r.range(1, 120)))
         elif k == "err":
             self.emit("err %d %d" % (self.pick_slot(), self.pick_slot()))
         elif k == "efun":
@@ -457,6 +478,7 @@ class C06(Prop):
               ("funRefBits", "sizeof(((funptr_t*)0)->hdr.ref) * 8"),
               ("objRefBits", "sizeof(((object_t*)0)->ref) * 8"),
               ("progRefBits", "sizeof(((program_t*)0)->ref) * 8"),
+              ("progFuncRefBits", "sizeof(((program_t*)0)->func_ref) * 8"),
               ("strRefBits", "sizeof(((malloc_block_t*)0)->ref) * 8"),
               ("sharedRefBits", "sizeof(((block_t*)0)->refs) * 8"),
               ("sizeofArrayT", "sizeof(array_t)"),
@@ -566,7 +588,10 @@ class C06(Prop):
             ("nodes+1", 7, st(3, 1), "counter=total_mapping_nodes"), ("nodes-1", 7, st(3, -1), "counter-low"),
             ("strings+1", 11, st(4, 1), "counter=num_distinct_strings by=+1"), ("strings-1", 9, st(4, -1), "counter-low"),
             ("objects+1", 19, st(6, 1), "counter=tot_alloc_object"), ("objects-at-end", 21, st(6, 1), "counter=tot_alloc_object"),
-            ("program-ref", 2, lambda l: setfld(l, "p:", "p:5"), "kind=program"), ("program-freed", 2, lambda l: setfld(l, "p:", "p:x"), "freed-while-held"),
+            ("program-ref", 2, lambda l: setfld(l, "p:", "p:5/2"), "kind=program prog=uobj"), ("program-freed", 2, lambda l: setfld(l, "p:", "p:x/2"), "freed-while-held op=2 kind=program"),
+            ("base-program-ref", 9, lambda l: setfld(l, "p:", fld(l, "p:").split("/")[0] + "/1"), "kind=program prog=base ref=1 holders=2"),
+            ("base-program-freed", 21, lambda l: setfld(l, "p:", fld(l, "p:").split("/")[0] + "/x"), "freed-while-held op=21 kind=program prog=base"),
+            ("injected-error-leak", 9, lambda l: st(0, 1)(l) + " k:17", "first-difference-at=k:17 counter=num_arrays by=+1"),
             ("name-refs+1", 13, lambda l: setfld(l, "f:", "f:2"), "function_name_string_refs by=+1"),
             ("name-refs-1", 9, lambda l: setfld(l, "f:", "f:0"), "counter-low"),
             ("shared-text-changed", 11, txt(2, "zbc"), "modified-while-shared"), ("own-text-wrong", 11, txt(3, "abc"), "text-mismatch"),
@@ -652,9 +677,19 @@ class C06(Prop):
                                                    "newfun 3 0 0", "call 0 0 1 0 0", "sent 0 0 0 0", "fill 4 64 0",
                                                    "free 0", "sweep", "rmsent 0", "free 4", "free 3", "free 2",
                                                    "mdel 1 2", "free 1", "dest 0", "cleanup", "drop 0"])
-        # program_t.ref: exact below the wrap (the wrap itself is the open known finding program-ref-wrap)
+        # program_t.ref (widened to 32 bits by repo commit 0280873; the 65 537-holder case is the `fixed` known record)
         mk("program-ref-300-clones", "unit", ["newobj 0", "clones 300", "dest 0", "unclone 5", "cleanup", "unclone 295",
                                               "drop 0"])
+        # inherit references: the base program is held by its blueprint and by the inherit table of /c06/uobj's
+        # program, which goes (and releases it) with the last clone after its blueprint has been unloaded
+        mk("program-inherit-unload", "unit", ["newobj 0", "clones 3", "unload 0", "newobj 1", "clones 2", "unload 1", "unclone 2",
+                                              "newarr 0 2", "setvar 0 1 0", "free 0", "dest 0", "unclone 1", "cleanup", "drop 0",
+                                              "newarr 1 1", "free 1"])
+        mk("program-unload-base-first", "unit", ["unload 1", "newobj 0", "clones 2", "unload 0", "unload 0", "dest 0", "cleanup",
+                                                 "unclone 2", "drop 0"])
+        mk("program-unload-no-clones", "unit", ["unload 0", "newarr 0 1", "unload 1", "free 0"])
+        mk("program-unload-pending", "unit", ["newobj 0", "newobj 1", "newarr 0 2", "call 0 0 1 0 0", "sent 0 1 0 0", "dest 0", "unload 0",
+                                              "cleanup", "unload 0", "sweep", "dest 1", "cleanup", "drop 0", "drop 1", "free 0"])
         for mode in ("unit", "lpc"):
             # pending call_outs with arguments whose owner is destructed before they are due: dropped by the sweep
             mk("callout-owner-destructed-" + mode, mode,
@@ -718,6 +753,13 @@ class C06(Prop):
         mk("builders-aborted-lpc", "lpc", ["newarr 0 2", "newmap 1", "mset 1 0 0", "newcls 2", "aset 2 0 1"] +
            ["efun %d %d %d" % (f, f % 3, (f + 1) % 3) for f in range(20, NEFUN)] +
            ["efun %d %d %d" % (f, (f + 1) % 3, f % 3) for f in range(20, NEFUN)] + ["free 0", "free 1", "free 2"])
+        # error paths, systematically (hook H2): every efun group with an error injected at every instruction in turn
+        fg = [f for f in range(NEFUN) if f not in NO_FAULT]
+        for part in range(0, len(fg), 12):
+            mk("efuns-error-injected-%d" % (part // 12), "lpc", ["newarr 0 3", "newmap 1", "mset 1 0 0", "aset 0 0 1", "newcls 2", "aset 2 0 1"] +
+               ["fefun %d %d %d 0" % (f, f % 3, (f + 1) % 3) for f in fg[part:part + 12]] + ["free 0", "free 1", "free 2"])
+        mk("restore-error-injected", "lpc", ["newarr 0 2"] + ["frest %s 0" % save_text(b) for b in SAVE_BASES] +
+           ["frest %s 0" % save_text(SAVE_BASES[1])[:k] for k in (9, 17, 30)] + ["free 0"])
         mk("efuns-lpc", "lpc", ["newarr 0 3", "newmap 1", "mset 1 0 0", "aset 0 0 1"] +
            ["efun %d %d %d" % (f, f % 2, (f + 1) % 2) for f in range(NEFUN)] + ["free 0", "free 1"])
         return B
@@ -726,7 +768,9 @@ class C06(Prop):
         mode = "unit" if rng.chance(1, 2) else "lpc"
         cyclic = rng.chance(3, 20)
         g = Gen(rng, mode, cyclic)
-        for _ in range(rng.range(8, 60)):
+        n = rng.range(8, 60)
+        for i in range(n):
+            g.late = i > n // 2
             g.op()
         g.teardown()
         return E.Case(cid, ["mode " + mode] + g.lines, {"origin": "generated", "cyclic": cyclic})
